@@ -24,8 +24,16 @@ func verPipes(v string) map[string]PipeDef {
 		env = map[string]string{"RV": "b"}
 	case "c":
 		env = map[string]string{"RV": "c", "RW": "x"}
+	case "d":
+		env = map[string]string{"RE1": ""}
+	case "e":
+		env = map[string]string{"RE2": ""}
 	}
 	script := []string{"echo ver=" + v + " rv=${RV-unset}", "sleep 0.25"}
+	if v == "d" || v == "e" {
+		// d and e differ in nothing but the name of an environment variable whose value is empty
+		script[0] = "echo ver=de rv=${RV-unset} e1=${RE1-unset} e2=${RE2-unset}"
+	}
 	ql := verQueue(v)
 	var qlp *int
 	if ql >= 0 {
@@ -80,6 +88,12 @@ func (a *App) executing() int {
 }
 
 func verOutput(v string) string {
+	switch v {
+	case "d":
+		return "ver=de rv=unset e1= e2=unset"
+	case "e":
+		return "ver=de rv=unset e1=unset e2="
+	}
 	rv := "unset"
 	if v != "a" {
 		rv = v
@@ -90,6 +104,8 @@ func verOutput(v string) string {
 func reloadMode(seed uint64, n int, walk string) {
 	os.Unsetenv("RV")
 	os.Unsetenv("RW")
+	os.Unsetenv("RE1")
+	os.Unsetenv("RE2")
 	if walk != "" {
 		reloadRound(strings.Split(walk, ","), 0)
 		return
@@ -105,6 +121,13 @@ func reloadMode(seed uint64, n int, walk string) {
 		}
 		reloadRound(w, round)
 	}
+	// one more round in which two consecutive versions differ only in the name of an empty-valued environment variable
+	abc := func() string { return reloadPool[r.Intn(len(reloadPool))] }
+	p, q := "d", "e"
+	if r.Intn(2) == 1 {
+		p, q = q, p
+	}
+	reloadRound([]string{abc(), p, q, p, abc()}, n)
 }
 
 func jobOutput(a *App, id string) string {
@@ -202,6 +225,8 @@ func reloadRound(walk []string, round int) {
 			rec["what"] = strings.Join(what, "; ")
 		}
 		emit(rec)
-		cur = next
+		if after == verOutput(next) {
+			cur = next // otherwise the application is, as far as can be seen, still on the version before
+		}
 	}
 }
